@@ -28,9 +28,16 @@
 //!
 //! Deviations from DESIGN.md: the decisive witness is the tap in the same run (exact, independent of
 //! determinism and of which consumers terminate early); the isolated re-execution is the cross-check.
-//! Spill metrics: see `c53s` notes at the end of this header.
+//! Spill metrics (`spilled_rows` vs decoded spill files) are NOT checked (optional part, not built).
+//! Known finding (open): `piecewise-merge-join-classic-output-rows` (fix verified). Observation outside the statement
+//! (observations/): with enable_piecewise_merge_join the physical planner reaches `unreachable!()` for a join ON comparison
+//! one side of which references no column — planner panics are discards here (label `planner-panic`).
 //!
-//! Sensitivity probes: see the end of this header.
+//! Sensitivity probes (probes.diff, `VFW_MUT=`):
+//! * `repart-double` — the order-preserving RepartitionExec's per-partition streams get BaselineMetrics again (the historic
+//!   double count): CAUGHT at quick tier (62 cases: "RepartitionExec … preserve_order=true reports output_rows = 2 but emitted 1").
+//! * `observed-skip` — ObservedStream stops calling record_poll: CAUGHT at once ("CoalescePartitionsExec reports output_rows = 0
+//!   but emitted 1 rows", "UnionExec reports 0 but emitted 2").
 use datafusion::arrow::array::RecordBatch;
 use datafusion::arrow::datatypes::SchemaRef;
 use datafusion::common::Result as DfResult;
@@ -207,9 +214,11 @@ pub fn run_case(case: &WalkCase) -> Result<Run, WalkFail> {
         let planned = walk::plan_sql(&ctx, &sql).await.map_err(WalkFail::Plan)?;
         let plan_text = walk::plan_text(&planned.physical);
         let (tapped_root, taps) = insert_taps(&planned.physical).map_err(|e| WalkFail::Plan(walk::engine_err(&e, "instrument")))?;
-        let (result_rows, error) = match collect(tapped_root, ctx.task_ctx()).await {
-            Ok(b) => (b.iter().map(|x| x.num_rows()).sum(), None),
-            Err(e) => (0, Some(walk::engine_err(&e, "execute"))),
+        // a query that fails — or panics — at run time did not "run to completion": discarded, not judged
+        let (result_rows, error) = match futures::FutureExt::catch_unwind(std::panic::AssertUnwindSafe(collect(tapped_root, ctx.task_ctx()))).await {
+            Ok(Ok(b)) => (b.iter().map(|x| x.num_rows()).sum(), None),
+            Ok(Err(e)) => (0, Some(walk::engine_err(&e, "execute"))),
+            Err(payload) => (0, Some(walk::EngineErr { class: vf_df::ErrClass::Internal, stage: "execute-panic", message: walk::panic_text(&payload) })),
         };
         let mut ops: Vec<Observed> = taps
             .iter()
